@@ -478,7 +478,10 @@ def ksa(ctx, rep):
             return False
         a, b = it[2]
         rng_ok = a[0] == "agg" and a[2] == "std::ops::Range" and tuple(x[:2] for x in a[4]) == (("int", 0), ("int", 256))
-        cyc_ok = util.is_call(b, "std::iter::Iterator::cycle") and util.is_call(b[2][0], "core::slice::<impl [T]>::iter") and strip(b[2][0][2][0]) == ("param", key_param)
+        src = strip(b[2][0]) if util.is_call(b, "std::iter::Iterator::cycle") else None
+        if src is not None and util.is_call(src) and src[1] in ("std::iter::Iterator::copied", "std::iter::Iterator::cloned"):
+            src = strip(src[2][0])       # key.iter().copied().cycle(): the same bytes, by value
+        cyc_ok = src is not None and util.is_call(src, "core::slice::<impl [T]>::iter") and strip(src[2][0]) == ("param", key_param)
         return rng_ok and cyc_ok
 
     mix = [c for c in drivers if is_mix_iter(c["args"][0])]
